@@ -23,7 +23,7 @@ import (
 )
 
 type c15Op struct {
-	Op     string `json:"op"` // append | remove | create
+	Op     string `json:"op"` // append | remove | create | pause (append Data, then the consumer stays outside Read once it has delivered everything) | resume
 	Data   string `json:"data_hex,omitempty"`
 	WaitUs int    `json:"wait_us"` // sleep before the operation
 	Sync   bool   `json:"sync"`    // wait until everything written so far was delivered, before the operation
@@ -97,7 +97,9 @@ func c15Run(in c15In) (out c15Out) {
 		R.written = len(*in.C0) / 2
 	}
 	done := make(chan struct{})
-	var stop int32
+	var stop, pauseReq int32
+	parkedCh := make(chan struct{}, 1)
+	resumeCh := make(chan struct{}, 1)
 	var fr followreader.FollowReader
 	var pr *followreader.PollingFollowReader
 	if in.Via == "batcher" {
@@ -177,9 +179,15 @@ func c15Run(in c15In) (out c15Out) {
 					R.ended, R.term, R.note = true, 2, "Read returned (0, nil) or runaway"
 				}
 				e := R.ended
+				park := !e && atomic.LoadInt32(&pauseReq) == 1 && len(R.delivered) >= R.written
 				R.mu.Unlock()
 				if e {
 					return
+				}
+				if park { // the consumer is outside Read until the writer says resume
+					atomic.StoreInt32(&pauseReq, 2)
+					parkedCh <- struct{}{}
+					<-resumeCh
 				}
 			}
 		}()
@@ -207,7 +215,7 @@ func c15Run(in c15In) (out c15Out) {
 			// notify + re-open: a re-created file is only looked at on the next write event (the select
 			// takes eventWrite and eventDelete in either order); scope note of the property, not a defect.
 			// The writer then appends one more byte (part of the recorded history).
-			if !in.Poll && in.Reopen && removes > 0 && nudges < 4 && time.Since(lastNudge) > 120*time.Millisecond {
+			if !in.Poll && in.Reopen && removes > 0 && nudges < 12 && time.Since(lastNudge) > 120*time.Millisecond {
 				R.mu.Lock()
 				R.log = append(R.log, c15Ent{0, "7e"})
 				R.written++
@@ -232,11 +240,15 @@ func c15Run(in c15In) (out c15Out) {
 		R.mu.Unlock()
 	}
 	ok := true
+	paused := false
 	for _, op := range in.Script {
+		if (op.Op == "pause" || op.Op == "resume") && in.Via != "" {
+			continue
+		}
 		if op.WaitUs > 0 {
 			time.Sleep(time.Duration(op.WaitUs) * time.Microsecond)
 		}
-		if op.Sync || op.Op == "remove" {
+		if (op.Sync && !paused) || op.Op == "remove" {
 			if !waitDrain() {
 				fail("stalled: written bytes not delivered within the limit")
 				ok = false
@@ -264,6 +276,32 @@ func c15Run(in c15In) (out c15Out) {
 			R.mu.Unlock()
 			removes++
 			err = os.Remove(path)
+		case "pause":
+			// wake a Read that is blocked, then keep the consumer outside Read: whatever the writer does until
+			// "resume" is pending all at once when Read is called again (the select order is then arbitrary)
+			b, _ := hex.DecodeString(op.Data)
+			R.mu.Lock()
+			R.log = append(R.log, c15Ent{0, op.Data})
+			R.written += len(b)
+			R.mu.Unlock()
+			atomic.StoreInt32(&pauseReq, 1)
+			err = appendFile(b)
+			if err == nil {
+				select {
+				case <-parkedCh:
+					paused = true
+				case <-done:
+				case <-time.After(stallLimit):
+					fail("stalled: the consumer did not drain before the pause")
+					ok = false
+				}
+			}
+		case "resume":
+			if paused {
+				paused = false
+				atomic.StoreInt32(&pauseReq, 0)
+				resumeCh <- struct{}{}
+			}
 		case "create":
 			R.mu.Lock()
 			R.log = append(R.log, c15Ent{K: 2})
@@ -281,6 +319,11 @@ func c15Run(in c15In) (out c15Out) {
 		if !ok {
 			break
 		}
+	}
+	if paused {
+		paused = false
+		atomic.StoreInt32(&pauseReq, 0)
+		resumeCh <- struct{}{}
 	}
 	if ok && !waitDrain() {
 		fail("stalled: written bytes not delivered within the limit")
@@ -374,15 +417,31 @@ func c15Case(in c15In) Case {
 	if out.Term == 1 {
 		tags = append(tags, "ended-EOF")
 	}
-	// domain of the recorded defect, decided from the input alone: notify + re-open and a second removal
-	scriptRemoves := 0
+	// domain of the recorded defect, decided from the input alone: notify + re-open and the removal of a file
+	// the reader need not have open, i.e. one created by the script that never received a byte (a file with
+	// delivered content, and the file present at New, are open; C15_prefix_asfound_partial covers those)
+	inDomain := false
+	initial, bytesIn := in.C0 != nil, 0
 	for _, op := range in.Script {
-		if op.Op == "remove" {
-			scriptRemoves++
+		switch op.Op {
+		case "create":
+			initial, bytesIn = false, 0
+		case "append", "pause":
+			bytesIn += len(op.Data) / 2
+		case "remove":
+			if !initial && bytesIn == 0 {
+				inDomain = true
+			}
 		}
 	}
-	if !in.Poll && in.Reopen && scriptRemoves >= 2 {
+	if !in.Poll && in.Reopen && inDomain {
 		tags = append(tags, "kf:C15-notify-stale-delete")
+	}
+	for _, op := range in.Script {
+		if op.Op == "pause" {
+			tags = append(tags, "consumer-paused")
+			break
+		}
 	}
 	kb, _ := json.Marshal(in)
 	return Case{
@@ -426,7 +485,7 @@ func (g *gen) mk(class string, poll, reopen, tail bool, budget int) c15In {
 		in.C0 = nil
 	} else {
 		n := r.Range(0, 12)
-		if class == "rotate" || class == "double-rotate" {
+		if class == "rotate" || class == "double-rotate" || class == "paused-rotate" {
 			n = r.Range(2, 12)
 		}
 		s := g.data(n)
@@ -464,6 +523,39 @@ func (g *gen) mk(class string, poll, reopen, tail bool, budget int) c15In {
 		add(c15Op{Op: "create", WaitUs: g.wait()})
 		for i := 0; i < budget-1; i++ {
 			app(r.Range(1, 9), r.Chance(1, 5))
+		}
+	case "paused-rotate": // the consumer is outside Read while the writer removes (after drain), re-creates and
+		// writes: delete, create and write notifications are all pending when Read is called again
+		rounds := 4
+		if !reopen {
+			rounds = 1
+		}
+		for round := 0; round < rounds; round++ {
+			if r.Chance(1, 2) {
+				app(r.Range(1, 6), false)
+			}
+			n := r.Range(1, 3)
+			if size+n < 2 {
+				n = 2
+			}
+			add(c15Op{Op: "pause", Data: g.data(n), WaitUs: g.wait()})
+			size += n
+			prev := size
+			add(c15Op{Op: "remove", WaitUs: Pick(r, []int{0, 0, 50, 300})})
+			if !reopen { // plain follow: the stream has to end when reading resumes
+				add(c15Op{Op: "resume", WaitUs: Pick(r, []int{200, 1000, 3000})})
+				break
+			}
+			add(c15Op{Op: "create", WaitUs: Pick(r, []int{0, 0, 50})})
+			size = 0
+			first := r.Range(1, 6)
+			if poll && first >= prev {
+				first = prev - 1
+			}
+			add(c15Op{Op: "append", Data: g.data(first), WaitUs: Pick(r, []int{0, 0, 50})})
+			size += first
+			add(c15Op{Op: "resume", WaitUs: Pick(r, []int{300, 1000, 2000, 4000})}) // time for the watcher goroutine to forward everything
+			app(r.Range(1, 6), true)
 		}
 	case "rotate": // remove after drain, re-create, continue; several times
 		left := budget
@@ -527,6 +619,8 @@ func c15Plan(r *Rng, n int, notify bool) []c15In {
 		{"missing-at-start", false, true}, {"missing-at-start", true, true},
 		{"double-rotate", false, true}, {"double-rotate", false, true},
 		{"double-rotate", true, true}, {"batcher", false, false},
+		{"paused-rotate", false, true}, {"paused-rotate", false, true}, {"paused-rotate", false, true},
+		{"paused-rotate", true, true}, {"paused-rotate", false, false},
 	}
 	for i := 0; len(ins) < n; i++ {
 		c := classes[i%len(classes)]
@@ -588,7 +682,8 @@ func main() {
 		Rule: "real followreader.New (notify via inotify, poll with PollDelay 1 ms and ReadAttempts in {1,2,5}) on a temporary file; seeded writer histories of 4..30 operations " +
 			"(classes: in-place appends with seeded pauses 0..2.5 ms and occasional wait-for-drain; burst of back-to-back appends; removal after drain at the end (plain follow: EOF expected); " +
 			"rotation = remove after drain, re-create, append (polling: first append shorter than the removed file and drained before the next); file missing at start with re-open; " +
-			"double rotation remove/create/remove/create without pauses (notify re-open, domain of finding C15-notify-stale-delete)) x {notify, poll} x {re-open, plain} x {tail, from start}, read buffer in {1,2,3,7,64,4096}. " +
+			"double rotation remove/create/remove/create without pauses (an empty middle file: with notify re-open the domain of finding C15-notify-stale-delete); " +
+			"paused consumer: the consumer leaves Read after draining, the writer removes, re-creates and appends, the consumer resumes after 0.3..4 ms so that delete, create and write notifications are pending together and the select serves them in arbitrary order, 4 rounds per case) x {notify, poll} x {re-open, plain} x {tail, from start}, read buffer in {1,2,3,7,64,4096}. " +
 			"distinct = distinct (flags, initial content, script with timing); non-trivial = at least two appends or a removal. " +
 			"If inotify is not available every case runs in poll mode and is tagged inotify-unavailable:poll-only.",
 		Gen: c15Gen,
